@@ -13,16 +13,23 @@
 (*                                                           verify_weak_signature_stormlib)       *)
 (* One corruption is applied; then every detector runs, as the harness does.  Property:            *)
 (*      Protected(cfg, region)  =>  Detected \/ ContentsUnchanged                                  *)
-(* AsCoded = FALSE is the intended coverage map; AsCoded = TRUE has the code's two deviations:     *)
-(*   D1 (F-C10-a)  read_sectored_file reads the per-sector checksums but never compares them       *)
-(*                 ("Temporarily disabled CRC validation", archive.rs:2316-2321)                   *)
-(*   D2 (F-C01-c)  a sector that fails to decompress is replaced by zeros, Ok (archive.rs:2336-)   *)
-(* PredictedGap characterises exactly the (configuration, region, effect) triples these leave      *)
-(* undetected; TLC checks "Sound \/ PredictedGap" for the code and "Sound" for the intended map,   *)
-(* and refutes "Sound" for the code (MC_Integrity_ascoded_sound.cfg).                             *)
+(* AsCoded = FALSE, GateHole = FALSE is the intended coverage map -- and, with 48c5310 (sector     *)
+(* checksums compared), 5c764f6 (undecodable sector = error) and the proposed                      *)
+(* fixes/C10-standard-crc-layout-second-indicator.patch, also the code's.                          *)
+(* Named deviations kept as refuted / predicted history:                                           *)
+(*   AsCoded = TRUE   the code before 48c5310 / 5c764f6:                                           *)
+(*     D1 (F-C10-a)  read_sectored_file read the per-sector checksums but never compared them      *)
+(*     D2 (F-C01-c)  a sector that failed to decompress was replaced by zeros, Ok                  *)
+(*     PredictedGap = multi-sector file data, sector CRCs on, nothing else covering it             *)
+(*   GateHole = TRUE  the code at 7734a50 (standard checksum layout): whether the checksums are    *)
+(*     looked at at all is decided from the sector offset table alone (first offset = (n+2)*4, and *)
+(*     a checksum sector that does not fit is skipped): an altered offset table can switch the     *)
+(*     verification of its own file off.  PredictedGateGap = the offset table of such a file.      *)
+(* TLC checks Sound for the intended map, "Sound \/ gap" + "gap is real" for each deviation, and   *)
+(* refutes plain Sound for each deviation (checks/c10.py demands the refutations).                 *)
 EXTENDS IntegrityDefs
 
-CONSTANT AsCoded
+CONSTANTS AsCoded, GateHole
 
 \* ------------------------------------------------------------------------------------------------
 \* state: one corruption, then the detectors run one after the other
@@ -52,7 +59,7 @@ SectorCrcNotices ==
     /\ icfg.crc
     /\ \/ SingleRegion(ireg) /\ ieff = "content"
        \/ ireg = "crc_single"
-       \/ ~AsCoded /\ MultiRegion(ireg) /\ ieff = "content"
+       \/ ~AsCoded /\ MultiRegion(ireg) /\ ieff = "content" /\ ~(GateHole /\ ireg = "multi_offsets")
        \/ ~AsCoded /\ ireg = "crc_multi"
 
 \* Archive::read_file of every file
@@ -104,6 +111,11 @@ Sound == istage = "done" => (Protected(icfg, ireg) => (Detected \/ ~ichanged))
 \* D1 + D2: data of a multi-sector file, sector CRCs on, nothing else covering it
 PredictedGap == /\ MultiRegion(ireg) /\ icfg.crc /\ icfg.attrs = "none" /\ ~icfg.signed
                 /\ ieff \in {"content", "decode_fail"}
+\* the offset table of a multi-sector file protected by sector checksums only (code at 7734a50)
+PredictedGateGap == /\ GateHole /\ ireg = "multi_offsets" /\ icfg.crc /\ icfg.attrs = "none" /\ ~icfg.signed
+                    /\ ieff = "content"
+SoundUpToGateGap == istage = "done" => (Protected(icfg, ireg) => (Detected \/ ~ichanged \/ PredictedGateGap))
+GateGapIsReal == (istage = "done" /\ ~AsCoded /\ PredictedGateGap) => (~Detected /\ ichanged)
 SoundUpToPredictedGap == istage = "done" => (Protected(icfg, ireg) => (Detected \/ ~ichanged \/ PredictedGap))
 \* the gap is real: every predicted triple is indeed undetected in the as-coded model
 GapIsReal == (istage = "done" /\ AsCoded /\ PredictedGap) => (~Detected /\ ichanged)
